@@ -880,8 +880,6 @@ def wide_cases(tier):
         for oth, ol in others:
             for wide_is_product in (True, False):
                 subs, prods = (oth, big) if wide_is_product else (big, oth)
-                if len(set(subs)) < len(subs):
-                    continue  # a repeated labelled substrate is finding class F-C05-1: covered by the random stratum
                 labels = {**bl, **ol}
                 N = max(sum(labels[c] for c in subs), sum(labels[c] for c in prods))
                 if N == 0 or N > 5:
@@ -894,6 +892,11 @@ def wide_cases(tier):
                              tuple([ident[1], ident[0]] + ident[2:])]
                 for m in perms:
                     out.append(single_rxn_case(subs, prods, labels, m))
+                # every length below the substrates' label positions (counted per occurrence: a coefficient 2 counts
+                # twice) is rejected; the first sufficient length is accepted
+                ns = sum(labels[c] for c in subs)
+                for k in range(ns + 1):
+                    out.append(single_rxn_case(subs, prods, labels, list(range(N))[:k]))
     return out
 
 
